@@ -24,6 +24,7 @@ CONSTANTS
   CLEAN = FALSE
   MaxActs = 0
   BUG_CLEAN_REENTRANT = FALSE
+  RECORD = TRUE
 INVARIANT NoViolation
 INVARIANT StructInv
 VIEW View
